@@ -180,7 +180,7 @@ class _ShapeList(list):
                 shape.meta['label'] = f"'{shape.meta['label']}'"
 
             keylist = ('include', 'comment', 'symbol', 'coord', 'text',
-                       'range', 'corr', 'type')
+                       'range', 'corr', 'type', 'labeloff')
             meta_pairs = []
             for key, val in shape.meta.items():
                 if key not in keylist:
@@ -210,6 +210,11 @@ class _ShapeList(list):
                 meta_str += f", range={shape.meta['range']}".replace("'", '')
             if 'corr' in shape.meta:
                 meta_str += f", corr={shape.meta['corr']}".replace("'", '')
+            if 'labeloff' in shape.meta:
+                # a list of numbers, read back as a list of strings:
+                # written without quotes, like range and corr
+                labeloff = list(shape.meta['labeloff'])
+                meta_str += f', labeloff={labeloff}'.replace("'", '')
 
             coord = []
             if coordsys not in ['image', 'physical']:
